@@ -41,6 +41,7 @@ func c01(r *rep.Run) {
 	nCore := len(progs)
 	progs = append(progs, Programs(Rich(), []term.Ty{B, I}, richMax)...)
 	progs = append(progs, widePrograms(6)...)
+	progs = withMerged(progs, 5)
 	r.Cov["programs_core"] = nCore
 	r.Cov["programs_rich"] = len(progs) - nCore
 
